@@ -31,6 +31,24 @@ structure RefreshRec where
   req : Req
   deriving DecidableEq, Repr, Inhabited
 
+/-- a pushed authorization request (`PARSessions`): the complete authorize request, unsanitised -/
+structure ParRec where
+  req : Req
+  redirect : String := ""
+  responseTypes : List String := []
+  state : String := ""
+  deriving DecidableEq, Repr, Inhabited
+
+/-- a device authorization (`DeviceAuths`): `state` is `UserCodeState` (0 unused, 1 accepted, 2 rejected);
+    `used` is only set by a store that follows the documented "invalidated ⇒ return the request with
+    ErrInvalidatedDeviceCode" contract (the reference store deletes the record instead) -/
+structure DevRec where
+  req : Req
+  state : Nat := 0
+  userSig : Nat := 0
+  used : Bool := false
+  deriving DecidableEq, Repr, Inhabited
+
 /-- `storage.MemoryStore`, token tables only; signatures are natural numbers in minting order. -/
 structure Store where
   codes : List (Nat × CodeRec) := []
@@ -40,6 +58,8 @@ structure Store where
   rtIdx : List (Nat × Nat) := []      -- RefreshTokenRequestIDs
   pkce : List (Nat × Req) := []
   oidc : List (Nat × Req) := []       -- keyed by the *complete* authorization code
+  par : List (Nat × ParRec) := []     -- keyed by the request_uri
+  device : List (Nat × DevRec) := []  -- keyed by the device-code signature
   deriving DecidableEq, Repr, Inhabited
 
 /-- Storage calls.  `create*` calls mint their own fresh signature (the strategy's `Generate*`
@@ -55,6 +75,9 @@ inductive Call
   | revokeRefresh (rid : Nat) | rotateRefresh (rid : Nat) (k : Option Nat)
   | createPKCE (sig : Nat) (r : Req) | getPKCE (k : Option Nat) | deletePKCE (k : Option Nat)
   | createOIDC (code : Nat) (r : Req) | getOIDC (k : Option Nat) | deleteOIDC (k : Option Nat)
+  | createPAR (r : ParRec) | getPAR (k : Option Nat) | deletePAR (k : Option Nat)
+  | createDevice (r : DevRec) | getDevice (k : Option Nat) | invalidateDevice (k : Option Nat)
+  | authenticateUser (name : String) (ok : Bool)
   | beginTx | commitTx | rollbackTx
   | newId
   deriving Repr, Inhabited
@@ -66,11 +89,14 @@ inductive Res
   | inactive (r : Req)       -- (request, ErrInvalidatedAuthorizeCode) / (request, ErrInactiveToken)
   | client (c : Client)
   | nat (n : Nat)
+  | par (p : ParRec)
+  | dev (d : DevRec)
+  | usedDev (d : DevRec)     -- (request, ErrInvalidatedDeviceCode)
   | fail (e : Err)           -- an injected / unexpected storage error
   deriving Repr, Inhabited
 
 def Res.isErr : Res → Bool
-  | .notFound | .inactive _ | .fail _ => true
+  | .notFound | .inactive _ | .usedDev _ | .fail _ => true
   | _ => false
 
 /-- the part of the state storage calls act on -/
@@ -78,6 +104,7 @@ structure SState where
   store : Store := {}
   next : Nat := 0            -- mint counter: every signature / id in `store` is `< next`
   clients : List Client := []
+  devMark : Bool := false    -- store variant: `InvalidateDeviceCodeSession` marks instead of deleting
   deriving Repr, Inhabited
 
 def revokeRefreshS (s : Store) (rid : Nat) : Store × Res :=
@@ -167,6 +194,35 @@ def SState.exec (st : SState) : Call → SState × Res
     match k with
     | some c => ({ st with store := { st.store with oidc := adel st.store.oidc c } }, .ok)
     | none => (st, .ok)
+  | .createPAR r =>
+    ({ st with next := st.next + 1, store := { st.store with par := aset st.store.par st.next r } }, .nat st.next)
+  | .getPAR k =>
+    match k.bind (alookup st.store.par) with
+    | none => (st, .notFound)
+    | some p => (st, .par p)
+  | .deletePAR k =>
+    match k with
+    | some u => ({ st with store := { st.store with par := adel st.store.par u } }, .ok)
+    | none => (st, .ok)
+  | .createDevice r =>
+    -- device code and user code are minted together: signatures `next` and `next + 1`
+    ({ st with next := st.next + 2,
+               store := { st.store with device := aset st.store.device st.next { r with userSig := st.next + 1 } } },
+     .nat st.next)
+  | .getDevice k =>
+    match k.bind (alookup st.store.device) with
+    | none => (st, .notFound)
+    | some d => if d.used then (st, .usedDev d) else (st, .dev d)
+  | .invalidateDevice k =>
+    match k with
+    | some sig =>
+      if st.devMark then
+        match alookup st.store.device sig with
+        | some d => ({ st with store := { st.store with device := aset st.store.device sig { d with used := true } } }, .ok)
+        | none => (st, .ok)
+      else ({ st with store := { st.store with device := adel st.store.device sig } }, .ok)
+    | none => (st, .ok)
+  | .authenticateUser _ ok => if ok then (st, .ok) else (st, .notFound)
   | .beginTx | .commitTx | .rollbackTx => (st, .ok)
 
 end Fosite.Model
